@@ -93,7 +93,13 @@ var Templates = []*Template{
 			return fmt.Sprintf("@@\n@@\n-import \"vf/old%d\"\n+import \"vf/new%d\"\n\n-old%d.Do()\n+new%d.Do()\n", k, k, k, k)
 		},
 		Trigger: func(k int) string { return fmt.Sprintf("vf/old%d", k) },
-		Stmt:    func(r *world.PRNG, k int) string { return fmt.Sprintf("old%d.Do()", k) },
+		Stmt: func(r *world.PRNG, k int) string {
+			if r.Chance(1, 3) {
+				// a closure in which a local variable shadows the package name
+				return fmt.Sprintf("old%d.Do()\nfunc(old%d Config) {\n_ = old%d.Name\n}(cfg)", k, k, k)
+			}
+			return fmt.Sprintf("old%d.Do()", k)
+		},
 		Imports: func(k int) []string { return []string{fmt.Sprintf("vf/old%d", k)} },
 	},
 	{
@@ -125,6 +131,25 @@ var Templates = []*Template{
 			inner := fmt.Sprintf("vfOld%d(%s,\n%s)", k, GenExpr(r, 1), GenExpr(r, 1))
 			return fmt.Sprintf("vfOld%d(%s,\n%s,\n// a comment inside\n%s)", k, GenExpr(r, 1), inner, GenExpr(r, 0))
 		},
+	},
+	{
+		// the change carries a package clause: it applies to files of that package only
+		Name: "package-guarded",
+		Patch: func(k int) string {
+			return fmt.Sprintf("@@\n@@\n package sample\n\n-vfOld%d()\n+vfNew%d()\n", k, k)
+		},
+		Trigger: func(k int) string { return fmt.Sprintf("vfOld%d", k) },
+		Stmt:    func(r *world.PRNG, k int) string { return fmt.Sprintf("vfOld%d()", k) },
+	},
+	{
+		// the replacement repeats the statement: an insertion whose lines equal the
+		// lines just before it
+		Name: "duplicate-stmt",
+		Patch: func(k int) string {
+			return fmt.Sprintf("@@\nvar x expression\n@@\n-vfOld%d(x)\n+vfNew%d(x)\n+vfNew%d(x)\n", k, k, k)
+		},
+		Trigger: func(k int) string { return fmt.Sprintf("vfOld%d", k) },
+		Stmt:    func(r *world.PRNG, k int) string { return fmt.Sprintf("vfNew%d(%s)\nvfOld%d(%s)", k, "1", k, "1") },
 	},
 	{
 		Name: "funcdecl-rename",
